@@ -92,6 +92,7 @@ def parseOp (ws : List String) : Option Op :=
   | ["lassign", l, n, a] => do some (.lassign (← l.toNat?) (← n.toNat?) (← parseBool a))
   | ["massign", m, n, a] => do some (.massign (← m.toNat?) (← n.toNat?) (← parseBool a))
   | ["mcomb", m, m2, a] => do some (.mcomb (← m.toNat?) (← m2.toNat?) (← parseBool a))
+  | ["setslicegen", l, a, b, ts] => do some (.setslicegen (← l.toNat?) (← a.toNat?) (← b.toNat?) (← parseNats ts))
   | ["tpurge", t] => do some (.tpurge (← t.toNat?))
   | ["lpurge", l] => do some (.lpurge (← l.toNat?))
   | ["mpurge", m] => do some (.mpurge (← m.toNat?))
